@@ -69,7 +69,7 @@ def portfolio(name):
 
 
 DATES = ["2020-12-31T18:00", "2021-01-01T00:00", "2021-01-01T03:00", "2021-01-01T06:00", "2021-01-01T12:00", "2021-01-01T15:00",
-         "2021-01-01T18:00", "2021-01-02T06:00"]
+         "2021-01-01T18:00", "2021-01-02T06:00", "2021-01-01T06:30", "2021-01-01T18:45"]
 
 
 def build_cases(tier):
